@@ -232,3 +232,19 @@ impl World {
         }
     }
 }
+
+impl World {
+    /// Connect one empty block (valid header + proof), persisting the tracker as the
+    /// root handler's AddBlock does.
+    pub fn add_empty_block(&self) -> Result<(), String> {
+        use lightning_signer::util::test_utils::make_testnet_header;
+        let node = &self.node;
+        let mut tracker = node.get_tracker();
+        let (header, proof) = make_testnet_header(tracker.tip(), tracker.height());
+        tracker.add_block(header, proof).map_err(|e| format!("{:?}", e))?;
+        node.get_persister()
+            .update_tracker(&node.get_id(), &tracker)
+            .map_err(|e| format!("persist tracker: {:?}", e))?;
+        Ok(())
+    }
+}
